@@ -8,6 +8,7 @@ import (
 	"errors"
 	"fmt"
 	"io"
+	"net"
 	"os"
 	"strings"
 	"time"
@@ -308,7 +309,20 @@ func (e ValErr) Error() string { return fmt.Sprintf("%s: code %d", e.Op, e.Code)
 
 // FaultKinds are the error VALUES a failing input reader is made to return: none of them is
 // io.EOF, though several look like it to an errors.Is / text based test.
-var FaultKinds = []string{"plain", "unexpected-eof", "wraps-eof", "path-error", "struct-value", "text-EOF", "wraps-unexpected-eof"}
+var FaultKinds = []string{"plain", "unexpected-eof", "wraps-eof", "path-error", "struct-value", "text-EOF", "wraps-unexpected-eof",
+	"temporary", "timeout", "temporary+timeout", "deadline-exceeded", "wraps-temporary", "net-op-error", "wraps-net-op-error"}
+
+// NetLikeErr looks like a net.Error: it claims to be temporary and/or a timeout.  A failing input
+// reader that keeps returning it has failed all the same.
+type NetLikeErr struct {
+	S       string
+	Temp    bool
+	TimeOut bool
+}
+
+func (e *NetLikeErr) Error() string   { return e.S }
+func (e *NetLikeErr) Temporary() bool { return e.Temp }
+func (e *NetLikeErr) Timeout() bool   { return e.TimeOut }
 
 // MakeFault builds a fresh error value of the given kind.
 func MakeFault(kind string, n int) error {
@@ -325,6 +339,20 @@ func MakeFault(kind string, n int) error {
 		return ValErr{Op: "read", Code: 5 + n}
 	case "text-EOF":
 		return errors.New("EOF")
+	case "temporary":
+		return &NetLikeErr{S: fmt.Sprintf("temporary failure %d", n), Temp: true}
+	case "timeout":
+		return &NetLikeErr{S: fmt.Sprintf("i/o timeout %d", n), TimeOut: true}
+	case "temporary+timeout":
+		return &NetLikeErr{S: fmt.Sprintf("i/o timeout (temporary) %d", n), Temp: true, TimeOut: true}
+	case "deadline-exceeded":
+		return os.ErrDeadlineExceeded
+	case "wraps-temporary":
+		return fmt.Errorf("read %d: %w", n, &NetLikeErr{S: "resource temporarily unavailable", Temp: true, TimeOut: true})
+	case "net-op-error":
+		return &net.OpError{Op: "read", Net: "tcp", Err: &NetLikeErr{S: "i/o timeout", Temp: true, TimeOut: true}}
+	case "wraps-net-op-error":
+		return fmt.Errorf("input %d: %w", n, &net.OpError{Op: "read", Net: "tcp", Err: os.ErrDeadlineExceeded})
 	default:
 		return &FaultErr{fmt.Sprintf("disk on fire %d", n)}
 	}
@@ -722,7 +750,7 @@ func RunP(ls Maker, fmtIdx int, input io.Reader, maxReads, tail int, probe func(
 	select {
 	case r := <-ch:
 		return r.steps, r.log
-	case <-time.After(20 * time.Second):
+	case <-time.After(8 * time.Second):
 		return []Step{{Kind: "hang", Err: ErrHang}}, nil
 	}
 }
